@@ -30,6 +30,28 @@ def iff(a, b):
     return bool(a) == bool(b)
 
 
+import ast as _ast
+
+
+class _Lazy(_ast.NodeTransformer):
+    """implies(a, b) -> (not a) or b, so that b is not evaluated when a is false"""
+    def visit_Call(self, node):
+        self.generic_visit(node)
+        if isinstance(node.func, _ast.Name) and node.func.id == 'implies' and len(node.args) == 2:
+            return _ast.BoolOp(op=_ast.Or(), values=[_ast.UnaryOp(op=_ast.Not(), operand=node.args[0]),
+                                                     node.args[1]])
+        return node
+
+
+_real_eval = eval
+
+
+def eval(expr, env):       # noqa: contract expressions, lazily implied
+    tree = _ast.parse(expr.strip(), mode='eval')
+    tree = _ast.fix_missing_locations(_Lazy().visit(tree))
+    return _real_eval(compile(tree, '<contract>', 'eval'), env)
+
+
 def concrete_env(module):
     env = {'implies': implies, 'iff': iff, 'old': lambda x: x}
     for n in getattr(module, 'SPEC_FUNCTIONS', []):
